@@ -200,11 +200,30 @@ def _for_tlc(c):
     return {"in": c["in"], "out": dict(err=o["err"], ok=o["ok"], ov=o["ov"], avg=o["avg"], integ=o["integ"])}
 
 
-def _judge(ctx, cases, tag, strict_family=True):
+def _report(ctx, per, clause, record, detail):
+    """ctx.violation, but at most CAP replay files per clause (known findings are always routed through so
+    that their hits are counted)."""
+    known = False
+    for k in ctx.known:
+        fn = ctx.matchers.get(k.get("matcher"))
+        try:
+            known = known or (k.get("status", "known") == "known" and fn is not None and bool(fn({"clause": clause, **record})))
+        except Exception:
+            pass
+    if not known:
+        per[clause] = per.get(clause, 0) + 1
+        if per[clause] > CAP:
+            ctx.extra["violations_not_written"] = ctx.extra.get("violations_not_written", 0) + 1
+            return
+    ctx.violation(clause, record, detail)
+
+
+def _judge(ctx, cases, tag, n_strict=None):
     recs = ctx.judge("J_Tessellation", [_for_tlc(c) for c in cases], CLAUSES, tag=tag, workers=WORKERS, timeout=1500)
     unfit = {v["case"] for v in recs if v.get("tag") == "unfit"}
     outside = {v["case"] for v in recs if v.get("clause") == "InFamily"}
-    if outside and strict_family:
+    n_strict = len(cases) if n_strict is None else n_strict  # the first n_strict cases are in the family by construction
+    if outside and min(outside) <= n_strict:
         raise RuntimeError(f"harness generated a case outside the family: {cases[min(outside) - 1]['in']}")
     ctx.inconclusive += len(unfit)
     per = {}
@@ -212,12 +231,8 @@ def _judge(ctx, cases, tag, strict_family=True):
         if "clause" not in v or v["clause"] == "InFamily" or v["case"] in outside:
             continue
         case = cases[v["case"] - 1]
-        per[v["clause"]] = per.get(v["clause"], 0) + 1
-        if per[v["clause"]] > CAP and not ctx.known:
-            ctx.extra["violations_not_written"] = ctx.extra.get("violations_not_written", 0) + 1
-            continue
         o = case["out"]
-        ctx.violation(v["clause"], case,
+        _report(ctx, per, v["clause"], case,
                       (f"{case['in']['kind']} in={ {k: v2 for k, v2 in case['in'].items() if k != 'kind'} } "
                        f"err={o['err']!r} overlaps={[(t['i'] - 1, t['j'] - 1, t['w'][0] / t['w'][1]) for t in o['ov']]}")[:500])
     return unfit, outside
@@ -257,19 +272,23 @@ def run(ctx):
         cases.append(tri_case(r["t1"], r["t2"]))
         ctx.case(key=("tri", len(r["t1"]), len(r["t2"])))
     ctx.extra["tri_pairs_catalogue"] = len(tris)
-    unfit, _ = _judge(ctx, cases, "judge")
     # seeded Delaunay family: precondition InFamily decided by TLC, cases outside are dropped (not judged)
     seeded = []
     for _ in range(150 if ctx.quick else 3000):
         a, b = ctx.rng.choice([(2, 2), (3, 2), (3, 3), (4, 3)])
         seeded.append(tri_case(_delaunay(ctx.rng, a, b), _delaunay(ctx.rng, a, b)))
-    unfit2, outside = _judge(ctx, seeded, "judge_seeded", strict_family=False)
-    for k, c in enumerate(seeded, 1):
+    unfit, outside = set(), set()
+    allc = cases + seeded
+    for k in range(0, len(allc), 12000):  # one TLC run in quick
+        u, o = _judge(ctx, allc[k:k + 12000], f"judge{k}", n_strict=max(0, len(cases) - k))
+        unfit |= {x + k for x in u}
+        outside |= {x + k for x in o}
+    for k, c in enumerate(seeded, len(cases) + 1):
         if k not in outside:
             ctx.case(key=("tri", len(c["in"]["t1"]), len(c["in"]["t2"])))
     ctx.extra["tri_pairs_seeded"] = len(seeded) - len(outside)
     ctx.extra["seeded_outside_family"] = len(outside)
-    ctx.extra["unfit"] = len(unfit) + len(unfit2)
+    ctx.extra["unfit"] = len(unfit)
     for c in (cases[len(cases) // 3], cases[-1], seeded[0]):
         ctx.sample({"in": c["in"], "out": {k: c["out"][k] for k in ("ov", "avg")}})
     ctx.exhaustive = True  # the enumerated pairs; the Delaunay pairs are extra
